@@ -1430,14 +1430,15 @@ def c14(res):
         work = os.path.join(os.path.dirname(sb.base), "client")
         try:
             for f in stalled[:3]:
-                m = re.match(r"[sm]-(download|upload)-b(\d+)-w(\d+)-n(\d+)", f["label"])
-                if not m:
+                if f["label"] not in IO.RUNS:
                     continue
-                direction, blk, w, nb = m.group(1), int(m.group(2)), int(m.group(3)), int(m.group(4))
-                content = X.make_file(nb, blk, 5 if blk <= 8 else blk - 1)
+                direction, remote, content, blk, w, tmo, host, local_name, refuse = IO.RUNS[f["label"]]
+                if host != "127.0.0.1" or refuse:
+                    continue
                 if direction == "download":
+                    os.makedirs(os.path.dirname(os.path.join(sb.send, "again", remote.replace("\\", "/").lstrip("/"))), exist_ok=True)
                     open(os.path.join(sb.send, "again.bin"), "wb").write(content)
-                se, ce, fin = IO.one_run(srv, sb, work, direction, "again.bin", content, blk, w, 1, f["label"] + "-again", run_timeout=120)
+                se, ce, fin = IO.one_run(srv, sb, work, direction, "again.bin", content, blk, w, 1, f["label"] + "-again", run_timeout=400)
                 if not fin["timed_out"]:
                     finals.remove(f)
                     finals.append(fin)
